@@ -6,10 +6,17 @@ package main
 // %!verb(type) notation; (C06) redactable renderings of errors built from hostile strings have
 // balanced, non-nested redaction markers on every line, and unsupported verbs are refused.
 
+import "strings"
+
 func formatReplay(w *World, o *Obligation, q *Query, _ map[string]string) (string, string) {
+	// frame obligations have their own replay vehicle (race detector / purity)
+	if strings.Contains(o.Name, "#frame.") || strings.Contains(o.Name, "#sframe.") {
+		return "", ""
+	}
 	src := `package errors_test
 
 import (
+	stderrors "errors"
 	"fmt"
 	"strings"
 	"testing"
@@ -50,6 +57,9 @@ func TestVerifReplay(t *testing.T) {
 		errors.New("hello world"),
 		errors.Wrap(errors.New("inner"), "outer"),
 		errors.WithHint(errors.Newf("n=%d", 3), "hint"),
+		errors.WithMessage(stderrors.Join(fmt.Errorf("boom")), "lib over a one-branch foreign join"),
+		errors.Wrap(stderrors.Join(fmt.Errorf("a"), fmt.Errorf("b: %w", fmt.Errorf("c"))), "lib over a foreign join"),
+		errors.WithStack(fmt.Errorf("multi %w and %w", fmt.Errorf("x"), errors.New("y"))),
 	}
 	for _, e := range base {
 		for _, verb := range []string{"v", "s", "q", "x", "X"} {
@@ -110,5 +120,5 @@ func TestVerifReplay(t *testing.T) {
 }
 
 func init() {
-	registerReplayFirst(`^\(\*errbase\.state\)\.(finishDisplay|printEntry|formatEntries|formatSingleLineOutput)#|^errbase\.(formatErrorInternal|FormatError|FormatRedactableError)#`, formatReplay)
+	registerReplayFirst(`^\(\*errbase\.state\)\.(finishDisplay|printEntry|formatEntries|formatSingleLineOutput|formatRecursive|collectEntry|elideShortChildren|formatSimple)#|^errbase\.(formatErrorInternal|FormatError|FormatRedactableError)#`, formatReplay)
 }
